@@ -266,6 +266,7 @@ class C14(F.PropCheck):
         def num(n):
             if n == b'prt': return str(rng.choice([0, 1, 80, 1883, 65534, 65535, 65536, 65537, 70000, 131071, 131072 + 1883, 2**31 - 1, 2**31, 2**31 + 5, 2**32, 2**32 + 1, 2**32 + 1883,
                                                    -1, -1883, -65535, 99999999999, rng.randrange(0, 140000)])).encode() if rng.random() < 0.9 else rng.choice([b'01883', b'0000001883', b'00000', b'-0'])
+            if rng.random() < 0.06: return rng.choice([b'123456789012', b'1234567890123', b'123456789012345', b'000000000000001', b'-12345678901234'])   # longer than intval
             if n == b'qos': return rng.choice([b'0', b'1', b'2', b'3', b'9', b'10', b'25', b'-1', b'02', b'256', b'4294967297'])
             return str(rng.choice([-2, -1, 0, 1, 50, 99, 100, 101, 127, 128, 155, 200, 255, 256, 300, 355, 356, 357, 512 + 7, -128, -129, -255, -257, 65536, 2**32, 2**32 + 5, 2**31, rng.randrange(-300, 600)])).encode()
         order = [n for n in texts if rng.random() < 0.85]
